@@ -170,9 +170,10 @@ def run(ck, ix, tier):
                  f"`{p}` belongs to the new context", f"`{norm(node)}` writes `{p}`, which belongs to the context being parameterised (shared object mutated)")
     ck.floor("G-OWN", n, 2, "writes in Context.from_context")
     rets = [r for r in walk_local(fi.node) if isinstance(r, ast.Return)]
-    nd = [a for a in walk_local(fi.node) if isinstance(a, ast.Assign) and isinstance(a.value, ast.Call) and call_name(a.value) == "dict"]
+    nd = [c_ for c_ in walk_local(fi.node) if isinstance(c_, ast.Call) and call_name(c_) == "dict" and "defaults" in norm(c_)]
+    ck.floor("G-PROV", len(nd), 1, "merge of declared defaults and passed values in Context.from_context")
     for a in nd:
-        c = a.value
+        c = a
         ok = len(c.args) == 1 and norm(c.args[0]) == "context.defaults" and any(k.arg is None and norm(k.value) == "defaults" for k in c.keywords)
         ck.check(ok, "G-PROV", "Context.from_context|passed-defaults-override-declared", fi.loc(a),
                  "dict(context.defaults, **defaults): passed values override declared defaults",
